@@ -1184,3 +1184,15 @@ Proof.
   replace (stage_num GetFrameHeader <=? FD_dstage_init) with true by (vm_compute; reflexivity).
   apply (oneshot_sound bdec (set_hist s0 dict) data cap o); auto using wf_set_hist.
 Qed.
+
+Theorem stops_at_frame_end bdec : forall s0 data cap o,
+  wf s0 -> d_stage s0 = GetFrameHeader -> d_remaining s0 = 0 -> d_skip s0 = false ->
+  bytes_ok data = true -> 0 <= cap -> le_val (ztake 4 data) = FD_MAGICNUMBER ->
+  let r := snd (decompress bdec s0 data cap o) in
+  r_ret r = 0 -> zlen (r_out r) < 18446744073709551616 ->
+  exists content rest, frame_decode bdec (o_skip o) (d_hist s0) data = Some (content, rest) /\
+                       r_consumed r = zlen data - zlen rest.
+Proof.
+  intros s0 data cap o H1 H2 H3 H4 H5 H6 H7 r H8 H9.
+  destruct (oneshot_sound bdec s0 data cap o H1 H2 H3 H4 H5 H6 H7 H8 H9) as (rest & E1 & E2). eauto.
+Qed.
